@@ -92,16 +92,17 @@ fn c09_apply_compose_3x3() {
 /// rotations), D = diag(+-2^k), k in [-2,2], T an integer translation:
 /// M^-1 o M == I == M o M^-1 exactly, and no panic.
 fn inverse_perm(perm: [usize; 3]) {
-    let sc = || {
-        let k = int(-2, 2);
-        let neg: bool = kani::any();
-        let v = [0.25f32, 0.5, 1.0, 2.0, 4.0][(k + 2) as usize];
-        if neg { -v } else { v }
-    };
+    // all symbolic inputs are drawn up front as plain arrays (Kani 0.68 emitted no
+    // playback test for counterexamples of this harness when they were drawn inside closures)
+    let ks: [i8; 3] = kani::any();
+    let negs: [bool; 3] = kani::any();
+    let ts: [i8; 3] = kani::any();
+    kani::assume(ks.iter().all(|k| *k >= -2 && *k <= 2) && ts.iter().all(|t| *t >= -3 && *t <= 3));
     let mut m = [[0.0f32; 4]; 4];
     for i in 0..3 {
-        m[i][perm[i]] = sc();
-        m[i][3] = small(-3, 3);
+        let v = [0.25f32, 0.5, 1.0, 2.0, 4.0][(ks[i] + 2) as usize];
+        m[i][perm[i]] = if negs[i] { -v } else { v };
+        m[i][3] = ts[i] as f32;
     }
     m[3][3] = 1.0;
     let mm: M4 = Matrix::new(m);
